@@ -398,6 +398,7 @@ def transform(fn, overrides=None, _memo=None, merge=True, also=(), safe_calls=()
         overrides = core.install_builtins()
     if _memo is None:
         _memo = {}
+    is_kernel = isinstance(fn, Dispatcher)
     fn = _unwrap(fn)
     if fn in _memo:
         return _memo[fn]
@@ -453,6 +454,19 @@ def transform(fn, overrides=None, _memo=None, merge=True, also=(), safe_calls=()
         newf._shell = loc[cls_name]
     if fn.__defaults__ and not newf.__defaults__:
         newf.__defaults__ = fn.__defaults__
+    if is_kernel:
+        inner = newf
+
+        def kernel_wrapper(*a, **k):
+            core.NUMBA_DEPTH += 1
+            try:
+                return inner(*a, **k)
+            finally:
+                core.NUMBA_DEPTH -= 1
+        kernel_wrapper.__name__ = getattr(inner, "__name__", "kernel")
+        kernel_wrapper._stats = xf.stats
+        kernel_wrapper._inner = inner
+        newf = kernel_wrapper
     _memo[fn] = newf
     for k, v in list(g.items()):
         if isinstance(v, Dispatcher):
